@@ -1484,6 +1484,11 @@ func (b *Body) decodedOnlyBehindDecoder(l *Ledger, a *nilAn) {
 						}
 					}
 				}
+				// … or a helper of the node's own that does the decoding and hands back the
+				// decoder's verdict
+				if !takes && len(call.Call.Args) > 0 && call.Call.Args[0] == fa.X && b.isDecodeHelper(call.Call.StaticCallee(), 0) {
+					takes = true
+				}
 				if !takes {
 					return
 				}
@@ -1517,4 +1522,64 @@ func (b *Body) decodedOnlyBehindDecoder(l *Ledger, a *nilAn) {
 			l.add("R-TYPESTATE", b.Name, key, b.rel(fn.Pos()), Discharged, fmt.Sprintf("%d store(s) of a decoded state, each on the nil edge of the error of a decoder call that was given the node's own doc/ary field", n), true)
 		}
 	}
+}
+
+// isDecodeHelper: f is a method of the node that hands its own doc or ary field to a decoder
+// call and reports success only where that call succeeded (every return has a non-nil error,
+// the decoder's own error, or lies on the nil edge of the decoder's error).
+func (b *Body) isDecodeHelper(f *ssa.Function, depth int) bool {
+	if f == nil || len(f.Blocks) == 0 || len(f.Params) == 0 || depth > 2 || !isPtrToNamed(f.Params[0].Type(), "lazyNode") {
+		return false
+	}
+	ei := errResultIndex(f)
+	if ei < 0 {
+		return false
+	}
+	var decs []*ssa.Call
+	allInstrs(f, func(j ssa.Instruction) {
+		call, ok := j.(*ssa.Call)
+		if !ok || len(errResultOf(call)) == 0 {
+			return
+		}
+		for _, arg := range call.Call.Args {
+			x := arg
+			if mi, ok := x.(*ssa.MakeInterface); ok {
+				x = mi.X
+			}
+			if af, ok := unwrapConv(x).(*ssa.FieldAddr); ok && af.X == ssa.Value(f.Params[0]) {
+				if fn := fieldOfAddr(af).Field; fn == "doc" || fn == "ary" {
+					decs = append(decs, call)
+				}
+			}
+		}
+		if len(call.Call.Args) > 0 && call.Call.Args[0] == ssa.Value(f.Params[0]) && call.Call.StaticCallee() != f && b.isDecodeHelper(call.Call.StaticCallee(), depth+1) {
+			decs = append(decs, call)
+		}
+	})
+	if len(decs) == 0 {
+		return false
+	}
+	for _, r := range liveReturns(f) {
+		rv := retVal(r, ei)
+		if b.definitelyNonNilErr(rv, r.Block(), 0) {
+			continue
+		}
+		ok := false
+		for _, d := range decs {
+			for _, e := range errResultOf(d) {
+				if rv == e {
+					ok = true
+				}
+				for _, t := range errChecks(e) {
+					if !t.Chain && (t.Blk.Succs[1-t.NonNilSucc] == r.Block() || edgeDominates(t.Blk, 1-t.NonNilSucc, r.Block())) {
+						ok = true
+					}
+				}
+			}
+		}
+		if !ok {
+			return false
+		}
+	}
+	return true
 }
